@@ -169,7 +169,11 @@ static int upipe_ts_tstd_set_flow_def(struct upipe *upipe,
     if ((flow_def_dup = uref_dup(flow_def)) == NULL)
         return UBASE_ERR_ALLOC;
     if (latency) {
-        UBASE_RETURN(uref_clock_set_latency(flow_def_dup, latency))
+        int err = uref_clock_set_latency(flow_def_dup, latency);
+        if (unlikely(!ubase_check(err))) {
+            uref_free(flow_def_dup);
+            return err;
+        }
     }
     upipe_ts_tstd_store_flow_def(upipe, flow_def_dup);
     return UBASE_ERR_NONE;
